@@ -51,6 +51,10 @@ func (g *G) heredocStmt(depth int) *Node {
 	v := g.simpleVar()
 	as := &Node{Kind: "ExprAssign", Kids: []Kid{one("Var", v), one("Expr", h)}, Parts: parts(v, t("="), h), Prec: precAssign}
 	n := &Node{Kind: "StmtExpression", Kids: []Kid{one("Expr", as)}, Parts: parts(as, tn(";"), tg("", GapNL))}
+	if h.Flags&FFlex73 != 0 && !g.O.Formatter {
+		// behind a flexible (7.3+) closing label anything may follow on the same line
+		n.Parts = parts(as, g.semi())
+	}
 	return n
 }
 
